@@ -12,7 +12,7 @@ TEXT = {
  "C05": ("lineage theorem for every directly nested table walked from any state, free-paragraph theorem, element/style from the paragraph refinement + correspondence of lineage/style/element + oracle on /repo's records, predicates and get_headings + source translation: is_tbl/is_tr/is_tc and get_pStyle equal the model; commence_paragraph in the heap embedding stores the lineage as it is after set_caret in a new Par (frame of the caret methods proved)", "8 C05"),
  "C06": ("merge theorems (atoms preserved, idempotent - both partial with machine-checked counterexamples for each dropped hypothesis) + correspondence at run granularity + metamorphic re-splitting oracle + source translation: _is_mergeable, _is_text_or_text_math and the merge key _elem_key equal the model for every element", "8 C06"),
  "C07": ("balance theorem for every document (nested paragraphs and link bodies included), escaping theorems, vocabulary over the regenerated formatter table, switched-off properties produce no tag + correspondence of html strings + tokenizer oracle (balance, vocabulary, escapes, projection onto plain, per-character tag sets exactly those of the source run properties) + source translation: html_open/html_close, Run.__str__, Par.run_strings, DepthCollector.escape, namespace.qn and gather_Pr equal the model", "8 C07"),
- "C08": ("unbounded theorems for letters, Roman 1..3999 by kernel computation, counting rule for every history, sorted positions, marker layout + correspondence of the renderers and of list documents + oracle recomputing counts and marker text + source translation: the six renderers, _increment_list_counter and BulletGenerator.get_bullet_fmt (numId / ilvl of a paragraph) equal the model for all arguments", "8 C08"),
+ "C08": ("unbounded theorems for letters, Roman 1..3999 by kernel computation, counting rule for every history, sorted positions, marker layout + correspondence of the renderers and of list documents + oracle recomputing counts and marker text + source translation: the six renderers, _increment_list_counter, BulletGenerator.get_bullet_fmt (numId / ilvl of a paragraph) and docx_context.collect_numAttrs (the numbering table) equal the model for all arguments", "8 C08"),
  "C09": ("path-inference theorems (relative, absolute, root, own rels; the two failing classes refuted) + correspondence of file list and all attributes on re-laid-out packages + layout-invariance oracle", "8 C09"),
  "C10": ("marker theorems via the paragraph refinement (link resolved / anchor / fallback, one run, note references, note labels) + correspondence at run granularity and of utilities.get_links (regex re-implemented in Utilities.v) + oracle against relationships and get_links + relationships re-pointed through the reader render their current target", "8 C10"),
  "C11": ("theorems on the images mapping (sound, complete, missing skipped); files on disk are observed only: oracle compares folder listing and bytes; partial + file-system model (Fs.v): exactly the images are written, byte-identical, nothing else changes", "8 C11"),
